@@ -26,7 +26,7 @@ def psLate (m : Mode) (x y : Val) : Option Val :=
   match y with
   | .fin yn yc ye =>
     if mag yc ye == 1 && (ye.natAbs < 40) then (if yn then some (quo m posOne x) else some x)
-    else psFin x yn yc ye
+    else psFin m x yn yc ye
   | .inf yn => psInf x yn
   | .nan n p => match x with | .nan n' p' => some (.nan n' p') | _ => some (.nan n p)
 
@@ -63,7 +63,7 @@ theorem psLate_one (m : Mode) (x : Val) (yn : Bool) (yc : Nat) (ye : Int) (hc : 
   cases yn <;> rfl
 
 theorem psLate_fin (m : Mode) (x : Val) (yn : Bool) (yc : Nat) (ye : Int)
-    (h : (mag yc ye == 1) = false) : psLate m x (.fin yn yc ye) = psFin x yn yc ye := by
+    (h : (mag yc ye == 1) = false) : psLate m x (.fin yn yc ye) = psFin m x yn yc ye := by
   simp only [psLate, h, Bool.false_and, if_false, Bool.false_eq_true]
 
 /-! ## (a), (b): the result is exactly 1 -/
